@@ -138,7 +138,7 @@ class Stats:
                 self.nt_counted += 1
             elif len(self.nt_hashes) < self.MAX_HASHES:
                 self.nt_hashes.add(case_hash(key) if not isinstance(key, int) else key)
-            if sample is not None and len(self.samples) < self.MAX_SAMPLES:
+            if sample is not None and len(self.samples) < self.MAX_SAMPLES and sample not in self.samples:
                 self.samples.append(sample)
 
     def fail(self, failure):
@@ -167,7 +167,7 @@ class Stats:
         self.excluded.update(other.excluded)
         self.inconclusive += other.inconclusive
         for s in other.samples:
-            if len(self.samples) < self.MAX_SAMPLES * 2:
+            if len(self.samples) < self.MAX_SAMPLES * 2 and s not in self.samples:
                 self.samples.append(s)
         for sig, (cnt, f) in other.failures.items():
             c0, b0 = self.failures.get(sig, (0, None))
